@@ -16,6 +16,7 @@ import (
 	_ "cuelang.org/go/internal/verif/h/c12"
 	_ "cuelang.org/go/internal/verif/h/c20"
 	_ "cuelang.org/go/internal/verif/h/c13"
+	_ "cuelang.org/go/internal/verif/h/c15"
 	_ "cuelang.org/go/internal/verif/h/c09"
 )
 
